@@ -2,6 +2,7 @@
 T1 (zone / constant arithmetic), T2 (categorical: output failure, constant-only, clock) or T3 (reviewed table with a
 machine-checked side condition). Anything else is undischarged = "cannot prove panic-free"."""
 import json
+import re
 import os
 
 from . import prim, zone
@@ -543,30 +544,42 @@ def check_condition(prog, site, cond):
         return True, "reviewed (no mechanical side condition)"
     gs = prim.dominating_guards(fn, b)
     if ty == "dominated_by_true":
-        want = cond["callee"]
+        want = cond["callee"] if isinstance(cond["callee"], list) else [cond["callee"]]
         truth = cond.get("value", True)
-        for gd in gs:
-            pr = gd["pred"].strip()
-            if pr.k == "un" and pr.a == "Not":
-                continue
-            if pr.k == "call" and pr.a["name"] == want and gd["bool"] is truth:
-                return True, "dominated by %s() == %s" % (want, truth)
-        return False, "no dominating %s() == %s; guards: %s" % (want, truth, prim.guards_fmt(gs)[:200])
+        for at in prim.norm_guards(gs):
+            pr = at["a"].strip()
+            bconst = at["b"].strip()
+            if pr.k == "call" and pr.a["name"] in want and bconst.k == "const" and bconst.a.get("v") is True and (at["rel"] == "eq") == truth:
+                return True, "dominated by %s() == %s" % (pr.a["name"], truth)
+        return False, "no dominating %s() == %s; guards: %s" % ("/".join(want), truth, prim.guards_fmt(gs)[:200])
+    atoms = prim.norm_guards(gs)
+    is_len = lambda x: any(c.a["name"] == "len" for c in x.call_nodes())
+    cval = lambda x: x.strip().a.get("v") if x.strip().k == "const" and isinstance(x.strip().a.get("v"), int) and not isinstance(x.strip().a.get("v"), bool) else None
+
+    def lower_bound(sel):
+        """largest n such that the guards imply sel-operand >= n (None when nothing is known)"""
+        best = None
+        for at in atoms:
+            for (x, y, rel) in ((at["a"], at["b"], at["rel"]), (at["b"], at["a"], prim._SWAP[at["rel"]])):
+                c = cval(y)
+                if c is None or not sel(x):
+                    continue
+                lb = {"gt": c + 1, "ge": c, "eq": c}.get(rel)
+                if rel == "ne" and c == 0:
+                    lb = 1          # unsigned
+                if lb is not None and (best is None or lb > best):
+                    best = lb
+        return best
     if ty == "dominated_by_len_eq":
         n = cond["value"]
-        for gd in gs:
-            pr = gd["pred"].strip()
-            if pr.k == "bin" and pr.a == "Eq" and gd["bool"] is True and any(c.get("v") == n for c in pr.consts()) and any(c.a["name"] == "len" for c in pr.call_nodes()):
-                return True, "dominated by len() == %d" % n
+        if prim.atom_holds(atoms, "eq", is_len, lambda y: cval(y) == n) is not None:
+            return True, "dominated by len() == %d" % n
         return False, "no dominating len() == %d" % n
     if ty == "dominated_by_len_gt":
         n = cond["value"]
-        for gd in gs:
-            pr = gd["pred"].strip()
-            if pr.k == "bin" and any(c.a["name"] == "len" for c in pr.call_nodes()):
-                cs = [c.get("v") for c in pr.consts()]
-                if (pr.a == "Gt" and gd["bool"] is True and cs and cs[0] >= n) or (pr.a == "Ge" and gd["bool"] is True and cs and cs[0] >= n + 1) or (pr.a == "Eq" and gd["bool"] is True and cs and cs[0] > n):
-                    return True, "dominated by len() > %d" % n
+        lb = lower_bound(is_len)
+        if lb is not None and lb >= n + 1:
+            return True, "dominated by len() > %d" % n
         return False, "no dominating len() > %d; guards %s" % (n, prim.guards_fmt(gs)[:200])
     if ty == "dominated_by_discr":
         # inside the arm of `callee(..)` whose result was matched as variant `label`
@@ -763,21 +776,15 @@ def check_condition(prog, site, cond):
         return n > 0, "dominated by %s == true, and all %d callers pass %s=true only with %s = <expr> + 1" % (p, n, p, cond["index_param"])
     if ty == "dominated_by_gt_zero":
         want = cond.get("callee")
-        for gd in gs:
-            pr = gd["pred"].strip()
-            if pr.k == "bin" and pr.a in ("Gt", "Ne") and gd["bool"] is True and any(c.get("v") == 0 for c in pr.consts()):
-                ex = prim.expand_single_def_vars(fn, pr)
-                if want is None or any(c.a["name"] == want for c in ex.call_nodes()):
-                    return True, "dominated by %s > 0" % (want or "value")
+        lb = lower_bound(lambda x: want is None or any(c.a["name"] == want for c in prim.expand_single_def_vars(fn, x).call_nodes()))
+        if lb is not None and lb >= 1:
+            return True, "dominated by %s > 0" % (want or "value")
         return False, "no dominating `%s > 0`; guards %s" % (want, prim.guards_fmt(gs)[:200])
     if ty == "dominated_by_field_lt":
         a_, b_ = cond["lhs"], cond["rhs"]
-        for gd in gs:
-            pr = gd["pred"].strip()
-            if pr.k == "bin" and pr.a in ("Lt",) and gd["bool"] is True:
-                l, r = pr.kids[0].strip(), pr.kids[1].strip()
-                if l.k == "field" and l.a == a_ and r.k == "field" and r.a == b_:
-                    return True, "dominated by self.%s < self.%s (so +1 cannot overflow)" % (a_, b_)
+        isf = lambda nm: (lambda x: x.strip().k == "field" and x.strip().a == nm)
+        if prim.atom_holds(atoms, "lt", isf(a_), isf(b_)) is not None:
+            return True, "dominated by self.%s < self.%s (so +1 cannot overflow)" % (a_, b_)
         return False, "no dominating self.%s < self.%s; guards %s" % (a_, b_, prim.guards_fmt(gs)[:200])
     if ty == "variant_constructed_under_len_gt":
         adt, var = cond["adt"], cond["variant"]
@@ -825,6 +832,16 @@ def _vec_nonempty(prog, adt, field):
             pushes = [b for b, t in f.calls() if t.j.get("callee_name") == "push"]
             if pushes and all(prim.must_pass(f, 0, [r], pushes) for r in f.return_blocks()):
                 ctor_ok = True
+            # or a `vec![a, ..]` literal with at least one element (lowers to box_assume_init_into_vec_unsafe::<T, N>)
+            for b in f.reachable():
+                for s in f.blocks[b].stmts:
+                    if s.rv is not None and s.rv.k == "agg" and s.rv.j.get("adt") == adt and field in (s.rv.j.get("fields") or []):
+                        fo = prim.origin_of_operand(f, s.rv.ops[s.rv.j["fields"].index(field)]).strip()
+                        if fo.k == "call" and fo.a["name"] == "box_assume_init_into_vec_unsafe":
+                            inst = (fo.a.get("inst") or "")
+                            m = re.search(r",\s*(\d+)>$", inst)
+                            if m and int(m.group(1)) >= 1:
+                                ctor_ok = True
     for f in prog.fns.values():
         if f.path.startswith(adt + "::") or f.impl_self == adt:
             continue
